@@ -213,6 +213,69 @@ theorem deadline_monitor {env : Env} {s s' : State} {op : Op} {r : Resp} (h : st
 
 /-! ## non-vacuity: each kind of message succeeds on a concrete non-trivial state -/
 
+/-- **Delivery.**  What a successful swap order moves, exactly, when neither party is the pool's
+escrow: the stated recipient's balance of the output coin rises by what the pool paid, the payer's
+balance of the input coin falls by what the pool received (and `sell_exact_in_min_out` /
+`buy_exact_out_max_in` bound those two amounts). -/
+theorem swap_delivered {env : Env} {s s' : State} {m : MsgSwap} {r : Resp} (h : swap env s m = .ok (s', r)) :
+    ∃ (sold bought : Nat) (esc : Addr) (p : Pool),
+      s.poolByCounter (counterOf s.std m.inDenom m.outDenom) = some p ∧ env.reserve p.lpt = .ok esc ∧
+      (m.inAddr.bytes ≠ esc → m.outAddr.bytes ≠ esc →
+        s'.bank.get esc m.inDenom = s.bank.get esc m.inDenom + sold ∧
+        s'.bank.get esc m.outDenom + bought = s.bank.get esc m.outDenom ∧
+        s'.bank.get m.outAddr.bytes m.outDenom = s.bank.get m.outAddr.bytes m.outDenom + bought ∧
+        s'.bank.get m.inAddr.bytes m.inDenom + sold = s.bank.get m.inAddr.bytes m.inDenom) := by
+  obtain ⟨F⟩ := swap_ok h
+  have hpool : ∃ p, s.poolByCounter (counterOf s.std m.inDenom m.outDenom) = some p ∧ env.reserve p.lpt = .ok F.esc := by
+    cases hb : m.isBuy with
+    | false =>
+      have ht := F.hTrade; rw [hb] at ht
+      obtain ⟨q, hpf, _⟩ := trade_sell_ok ht
+      obtain ⟨_, _, hfind, hres, _⟩ := poolFor_ok hpf
+      exact ⟨q, hfind, hres⟩
+    | true =>
+      have ht := F.hTrade; rw [hb] at ht
+      obtain ⟨q, hpf, _⟩ := trade_buy_ok ht
+      obtain ⟨hne, _, hfind, hres, _⟩ := poolFor_ok hpf
+      refine ⟨q, ?_, hres⟩
+      have : counterOf s.std m.inDenom m.outDenom = counterOf s.std m.outDenom m.inDenom := by
+        unfold counterOf
+        rcases F.oneStd with h1 | h1
+        · have : m.outDenom ≠ s.std := fun e => F.denomsNe (h1.trans e.symm)
+          simp [h1, this]
+        · have : m.inDenom ≠ s.std := fun e => F.denomsNe (e.trans h1.symm)
+          simp [h1, this]
+      rw [this]; exact hfind
+  obtain ⟨q, hq, hqres⟩ := hpool
+  refine ⟨F.sold, F.bought, F.esc, q, hq, hqres, ?_⟩
+  intro h1 h2
+  have hbank := F.hBank
+  rw [decode_ok F.hSender, decode_ok F.hRcpt] at hbank
+  exact swapEffs_exact hbank h1 h2 F.denomsNe
+
+open Spec in
+/-- the executable predicate the driver evaluates on implementation transitions holds of every
+successful swap of the model -/
+theorem swap_delivered_monitor {env : Env} {s s' : State} {m : MsgSwap} {r : Resp} (hW : WF env s)
+    (h : swap env s m = .ok (s', r)) :
+    c08_swapDelivered { env := env, pre := s, op := .swap m, ok := true, resp := r, post := s' } = true := by
+  obtain ⟨sold, bought, esc, p, hfind, hres, hx⟩ := swap_delivered h
+  obtain ⟨hmem, _⟩ := mem_of_poolByCounter hfind
+  have hesc : p.escrow = esc := by
+    have := hW.reserveOk p hmem
+    rw [hres] at this; injection this with this; exact this.symm
+  have hfind' : s.poolByCounter (if m.inDenom == s.std then m.outDenom else m.inDenom) = some p := hfind
+  simp only [c08_swapDelivered, swapMsgOf, Bool.not_true, Bool.false_or, hfind', hesc]
+  by_cases hc : (m.outAddr.bytes == esc || m.inAddr.bytes == esc) = true
+  · simp only [hc, if_true]
+  · simp only [hc]
+    simp only [Bool.or_eq_true, beq_iff_eq, not_or] at hc
+    obtain ⟨a1, a2, a3, a4⟩ := hx hc.2 hc.1
+    simp only [gain, loss, Bool.false_eq_true, if_false, Bool.and_eq_true, beq_iff_eq]
+    constructor
+    · rw [a3]; omega
+    · rw [a1]; omega
+
 example : (step exEnv exState exSell).toBool = true := by decide +kernel
 example : (step exEnv exState exBuy).toBool = true := by decide +kernel
 example : (step exEnv exState exAdd).toBool = true := by decide +kernel
